@@ -6,7 +6,9 @@ from hypothesis import strategies as st
 from ..core import Prop
 from .common import crash_failure
 
-SEQ_TYPES = {"vector_int": None, "vector_double": None, "static_vector4": 4, "static_vector8": 8, "small_vector6": None}
+SEQ_TYPES = {"vector_int": None, "vector_double": None, "static_vector4": 4, "static_vector8": 8, "small_vector6": None, "small_vector6_stl": None}
+SMALL_TYPES = ("small_vector6", "small_vector6_stl")   # utl::either<utl::static_vector,utl::vector> resp. std::variant<utl::static_vector,std::vector>
+DIM = 6
 ARRAY_TYPES = {"array4": 4, "array3d": 3}
 MAYBE_TYPES = ["maybe_int", "maybe_double", "maybe_vec"]
 EITHER_TYPES = ["either_int_double", "either_int_vec", "either_vec_svec"]
@@ -24,6 +26,8 @@ def apply(t, state, step):
     """model transition; state = [slot0, slot1]; returns new state (deep-copied)"""
     s = copy.deepcopy(state)
     op, k = step[0], step[1]
+    if t == "small_vector6_stl":
+        return apply_small_stl(s, step)
     if t in SEQ_TYPES:
         cap = SEQ_TYPES[t]
         if op == "new":
@@ -111,6 +115,54 @@ def apply(t, state, step):
     return s
 
 
+class SV(list):
+    """model of small_vector<int, 6, std::variant, utl::static_vector, std::vector>: the element list plus which buffer is active.
+    Elements created by growth are unspecified (U) in the static buffer (utl::static_vector::resize only moves its size) and 0 in the
+    heap buffer (std::vector value-initialises; a spill builds a value-initialised std::vector and copies the old size() elements)."""
+    heap = False
+
+
+def apply_small_stl(s, step):
+    op, k = step[0], step[1]
+
+    def grow(cur, n):
+        out = SV(cur[:n])
+        out.heap = cur.heap
+        if n > len(cur):
+            if not cur.heap and n > DIM:
+                out.heap = True
+            out.extend([0 if out.heap else U] * (n - len(cur)))
+        return out
+    if op == "new":
+        kind = step[2]
+        if kind == "default":
+            s[k] = SV()
+        elif kind == "sized":
+            n = step[3]
+            s[k] = SV([0 if n >= DIM else U] * n)
+            s[k].heap = n >= DIM          # small_vector(N): static only if N < DIM
+        elif kind == "values":
+            s[k] = SV(step[3])
+        elif kind == "copy":
+            s[k] = copy.deepcopy(s[step[3]])
+    elif op == "assign":
+        s[k] = copy.deepcopy(s[step[2]])
+    elif op == "push":
+        cur = s[k]
+        if len(cur) == DIM:
+            s[k] = grow(cur, DIM + 1)
+            s[k][DIM] = step[2]
+        else:
+            cur.append(step[2])
+    elif op == "resize":
+        s[k] = grow(s[k], step[2])
+    elif op in ("write", "write_at"):
+        s[k][step[2]] = step[3]
+    elif op == "destroy":
+        s[k] = None
+    return s
+
+
 def default_left(t):
     return [] if t == "either_vec_svec" else 0
 
@@ -139,8 +191,8 @@ def next_steps(t, state, small=True, k0=7):
         if t in SEQ_TYPES:
             cap = SEQ_TYPES[t]
             out.append(["new", k, "default"])
-            if t != "small_vector6" or True:
-                for n in ((0, 2) if small else (0, 1, 3, (cap or 9))):
+            if True:
+                for n in (((0, 2, DIM) if t in SMALL_TYPES else (0, 2)) if small else ((0, 1, 3, DIM, 9) if t in SMALL_TYPES else (0, 1, 3, (cap or 9)))):
                     if cap is None or n <= cap:
                         out.append(["new", k, "sized", n])
             out.append(["new", k, "values", [v, v + 1, v + 2][: 2 + (k0 % 2)]])
@@ -163,7 +215,7 @@ def next_steps(t, state, small=True, k0=7):
             cap = SEQ_TYPES[t]
             n = len(state[k])
             out.append(["push", k, v])
-            for m in sorted(set([0, max(0, n - 1), n + 1] + ([cap + 1] if cap else []) + ([] if small else [n + 5, 2]))):
+            for m in sorted(set([0, max(0, n - 1), n + 1] + ([cap + 1] if cap else []) + ([DIM, DIM + 1] if t in SMALL_TYPES else []) + ([] if small else [n + 5, 2]))):
                 out.append(["resize", k, m])
             if n:
                 out.append(["write", k, n - 1, v + 3])
@@ -227,9 +279,9 @@ def history_classes(t, steps):
             cap = SEQ_TYPES[t]
             if cap and len(state[k]) + 1 > cap:
                 out.add("refused")
-            if t == "small_vector6" and len(state[k]) == 6:
+            if t in SMALL_TYPES and len(state[k]) == 6:
                 out.add("cross_threshold")
-        if t == "small_vector6" and op == "resize" and (len(state[k]) <= 6) != (s[2] <= 6):
+        if t in SMALL_TYPES and op == "resize" and (len(state[k]) <= 6) != (s[2] <= 6):
             out.add("cross_threshold")
         if t in EITHER_TYPES and op in ("assign_left", "assign_right", "assign") and state[k] is not None:
             new = apply(t, state, s)[k]
@@ -247,7 +299,7 @@ class C19(Prop):
     servers = ["utl"]
     chunk = 200
     rule = ("case = (container type, history): a sequence of operations {construct default/sized/variadic/copy, assign(other|self), push_back, resize, write, destroy} "
-            "on up to two live objects of utl::vector, utl::static_vector<4|8>, nmtools::small_vector<6>, utl::array, utl::tuple/tuplev2, utl::maybe, utl::either "
+            "on up to two live objects of utl::vector, utl::static_vector<4|8>, nmtools::small_vector<6> (utl-backed and std::variant/std::vector-backed), utl::array, utl::tuple/tuplev2, utl::maybe, utl::either "
             "(trivial and non-trivial payloads). After EVERY step the size, every specified element, has_value / active alternative of both objects are compared with "
             "a Python model (list / None-or-value / tagged union; static_vector refuses beyond capacity; elements created by a growing resize are unspecified); at the end "
             "all objects are destroyed and the counting allocator must balance; ASan/UBSan must stay silent. Exhaustive for length <= 4 (quick) / 5 (thorough) over a small "
@@ -257,7 +309,7 @@ class C19(Prop):
                    "static_vector(n) with n > Capacity is outside the domain (no std counterpart)"]
 
     def exhaustive_space(self, tier):
-        return "all valid histories of length 1..%d over the small alphabet for 15 container types (capped per type)" % (5 if tier == "thorough" else 4)
+        return "all valid histories of length 1..%d over the small alphabet for 16 container types (capped per type)" % (5 if tier == "thorough" else 4)
 
     def exhaustive(self, tier):
         L = 5 if tier == "thorough" else 4
@@ -268,7 +320,7 @@ class C19(Prop):
                     yield {"op": "hist", "type": t, "steps": steps}
 
     def n_random(self, tier):
-        return 6000 if tier == "quick" else 150000
+        return 20000 if tier == "quick" else 200000
 
     def strategy(self, tier):
         maxlen = 60 if tier == "quick" else 200
@@ -295,8 +347,8 @@ class C19(Prop):
         if t == "small_vector6":
             state = [None, None]
             for s in case["steps"]:
-                state = apply(t, state, s)
-                if any(x is not None and len(x) > 6 for x in state):
+                state = apply("small_vector6_stl", state, s)       # same buffer-selection logic; tracks which buffer is active
+                if any(x is not None and x.heap for x in state):
                     return "C19-nontrivial-either-lifetime"
         return None
 
